@@ -194,10 +194,19 @@ def run_same_process(case, res, work):
     res["nontrivial"] = True
     ra = G.write_closure(A, work / "A" / "src")
     rb = G.write_closure(B, work / "B" / "src")
-    for d in ("o1", "o2", "o3", "cli"):
+    # a namesake of A compiled first in the same interpreter: the same files and names, but the native types behind
+    # aliases and fields are other ones (what a lab's second rig, or yesterday's version of the definitions, looks like)
+    import re as _re
+    swap = {"int16": "int32", "int32": "int16", "float": "double", "double": "float", "uint8": "uint16", "uint16": "uint8",
+            "int64": "int32", "uint32": "uint64", "uint64": "uint32", "int8": "int16"}
+    Z = dict(A, files={f: _re.sub(r"(?m)^(\s+[A-Za-z_]\w*: )(u?int(?:8|16|32|64)|float|double)\b",
+                                  lambda m: m.group(1) + swap.get(m.group(2), m.group(2)), t) for f, t in A["files"].items()})
+    rz = G.write_closure(Z, work / "Z" / "src")
+    for d in ("o0", "o1", "o2", "o3", "cli"):
         (work / d).mkdir(parents=True)
     kw = "python=True, javascript=True, matlab=True, c_lang=True, combined=True, info=False"
     code = ("import os\nfrom pyrtma.compile import compile\n"
+            f"try:\n    compile([{str(rz)!r}], {str(work / 'o0')!r}, 'out', {kw})\nexcept BaseException:\n    pass\n"
             f"compile([{str(ra)!r}], {str(work / 'o1')!r}, 'out', {kw})\n"
             f"os.chdir({str(work)!r})\ncompile([{str(rb)!r}], {str(work / 'o2')!r}, 'out', {kw})\n"
             f"os.chdir('/')\ncompile([{str(ra)!r}], {str(work / 'o3')!r}, 'out', {kw})\n")
